@@ -7,7 +7,7 @@ CONSTANTS
     Sizes = {1}
     Limits = {1, 2}
     MidFlushes = {{}, {1}}
-    Faults = {"reject", "stall", "dropa", "refuse"}
+    Faults = {"reject", "stall", "stalltrail", "dropa", "refuse"}
     MaxFaults = 3
     MaxRetry = 2
     DoublePop = FALSE
